@@ -592,7 +592,13 @@ def c01_8(ctx):
         ctx.err('endian-default:sites', '-', 'at least 15 hand-down sites', f'{n}')
 
 
-RULES = [c01_1, c01_2, c01_3, c01_4, c01_5, c01_6, c01_7, c01_8]
+def c01_state(ctx):
+    """Per-statement / per-lookup properties presuppose that nothing is remembered between statements beyond the reviewed state."""
+    from rules.shared import state_discipline
+    state_discipline(ctx, ('bespokeasm.assembler.bytecode', 'bespokeasm.assembler.model', 'bespokeasm.expression', 'bespokeasm.utilities', 'bespokeasm.assembler.line_object.instruction_line'))
+
+
+RULES = [c01_1, c01_2, c01_3, c01_4, c01_5, c01_6, c01_7, c01_8, c01_state]
 
 _OP = 'assembler/model/operand_parser.py'
 _GI = 'assembler/bytecode/generator/instruction.py'
